@@ -231,6 +231,7 @@ var _ protoreflect.Message
 func runC19(c *gen.Ctx) error {
 	r := c.R
 	c19SharpGen(c)
+	c19SuiteGen(c)
 	limit := cc.VerifC19ServerReceiveLimit()
 	one := func(m c19Msg, off int64) {
 		m.Off = &off
